@@ -41,8 +41,8 @@ Base(kind, n) ==
     comp |-> [i \in 1..n |-> << >>],
     cmapcfg |-> "4", cmap |-> StdCmap(n),
     hasenc |-> FALSE, enc |-> << >>,
-    gsub |-> "none", ligs |-> << >>, subs |-> << >>,
-    gpos |-> FALSE, pairs |-> << >> ]
+    gsub |-> "none", ligs |-> << >>, ligsplit |-> 0, subs |-> << >>, subs2 |-> << >>,
+    gpos |-> FALSE, pairs |-> << >>, pairs2 |-> << >> ]
 
 \* TrueType: glyph 1 is an empty glyph (no outline, like "space") unless it is a composite
 WithComp(F, c) ==
@@ -134,9 +134,29 @@ FamM(n) ==
       c \in MixComps(n), r \in Rules2(n) \cup { <<1, 3>>, <<2, 3>>, <<3, 2>> },
       so \in { <<"l", << >> >>, <<"sl", << <<1, 2>> >> >> } }
 
+\* S: lookups of two subtables that overlap on their keys (the first subtable wins, before and after
+\* subsetting), and rules that involve glyph 0: .notdef is always retained as new glyph 0, so the coverage
+\* tables of the subset start at 0 and, the retained glyphs being renumbered 0, 1, 2, ..., consist of long
+\* runs (range format).  Dense(F) gives every glyph a pair, a ligature and a single substitution.
+Dense(F) ==
+  [F EXCEPT !.gsub = "ls", !.gpos = TRUE,
+            !.ligs  = [i \in 1..F.n |-> <<i - 1, i - 1, i - 1>>],
+            !.subs  = [i \in 1..F.n |-> <<i - 1, i - 1>>],
+            !.pairs = [i \in 1..F.n |-> <<i - 1, i % F.n, 40 + i>>]]
+FamS(n) ==
+  { [B EXCEPT !.gpos = TRUE, !.pairs = << <<1, 2, 10>>, <<2, 3, 11>> >>,
+                             !.pairs2 = << <<1, 2, 20>>, <<3, 1, 21>>, <<2, 3, 22>>, <<0, 1, 23>> >>,
+              !.gsub = g[1], !.subs = g[2], !.subs2 = g[3], !.ligs = g[4], !.ligsplit = g[5]] :
+      B \in { CompLast(Base("ttf", n)), Base("cff", n) },
+      g \in { <<"s",  << <<1, 2>> >>, << <<1, 3>>, <<0, 2>> >>, << >>, 0>>,
+              <<"sl", << <<2, 1>>, <<3, 2>> >>, << <<2, 3>>, <<1, 2>> >>, << <<2, 1, 3>> >>, 1>>,
+              <<"l",  << >>, << >>, << <<1, 2, 3>>, <<1, 2, 2>>, <<0, 1, 2>>, <<1, 3>> >>, 1>>,
+              <<"ls", << <<0, 1>> >>, << >>, << <<1, 2, 3>>, <<2, 2>>, <<1, 2, 1>>, <<2, 1>> >>, 2>> } }
+  \cup { Dense(Base("ttf", n)), Dense(Base("cff", n)), Dense(CompLast(Base("ttf", n))) }
+
 \* The families are instantiated in small MC modules (SubsetMC.tla, or generated by checks/C10.py):
 \* TLC evaluates every zero-arity constant definition at start-up, so they must not all live here.
-FamQ(n) == FamT(n, 3, 1) \cup FamL(n, {"ttf"}, {3}) \cup FamP(n) \cup FamC(n) \cup FamD(n) \cup FamE(n) \cup FamM(n)
+FamQ(n) == FamS(n) \cup FamT(n, 3, 1) \cup FamL(n, {"ttf"}, {3}) \cup FamP(n) \cup FamC(n) \cup FamD(n) \cup FamE(n) \cup FamM(n)
 
 (***************************************************************************)
 (* The subsetter.                                                           *)
